@@ -18,8 +18,9 @@ PROPS = {
 }
 
 PROPS["C08"] = {
+    "needs_sfw": True,
     "technique": 'Lean 4 theorems over exact rationals on the shared alert pipeline + differential and oracles on both backends',
-    "suites": [{"name": "match", "quick": 1200, "thorough": 6000}],
+    "suites": [{"name": "match", "quick": 1200, "thorough": 6000}, {"name": "cli", "quick": 1, "thorough": 6, "timeout": 3000}],
     "required_theorems": ["C08_alert_ge_threshold", "C08_alert_veto", "C08_conf_range", "C08_alerts_sorted",
                           "C08_threshold_antitone", "C08_exact_in_full_json"],
     "level_text": "Kernel-checked theorems over exact rationals with an explicit NaN: every alert of the shared alert pipeline has a real confidence >= threshold, in [0,1], all required calls present (veto), alerts sorted, raising the threshold only removes alerts, JSON exact ⊆ full under the property's scoping (Pebble exact ⊆ full is C06_scanExact_sound + C06_scanFull_eq). The model is tied to MatchSignature / jsondb / pebbledb scans by a differential on generated topologies and signature sets, and the same clauses are evaluated as oracles on the real alerts of both backends.",
@@ -29,8 +30,9 @@ PROPS["C08"] = {
     "assumptions": ["signature tolerances >= 0, entropies on a 1/64 grid in the differential"],
 }
 PROPS["C05"] = {
+    "needs_sfw": True,
     "technique": 'Lean 4 proof that match(t, index(t)) = 1 and is reported by both backends + index/scan differential on generated Go sources',
-    "suites": [{"name": "match", "quick": 250, "thorough": 6000}, {"name": "indexscan", "quick": 3, "thorough": 30, "timeout": 3000}],
+    "suites": [{"name": "match", "quick": 250, "thorough": 6000}, {"name": "indexscan", "quick": 3, "thorough": 30, "timeout": 3000}, {"name": "cli", "quick": 1, "thorough": 6, "timeout": 3000}],
     "required_theorems": ["C05_self_match", "C05_found_in_alerts", "C05_found_exact_json"],
     "level_text": "Kernel-checked: MatchSignature(t, IndexFunction(t)) has confidence exactly 1 for every topology, hash value and default tolerance, hence the indexed signature is reported by the alert pipeline of either backend at every threshold <= 1 and by JSON exact mode. Tie: IndexFunction, GenerateTopologyHash (model SHA-256), GenerateFuzzyHash, MatchSignature differential; self-match evaluated on the real code for every generated topology.",
     "level_note": "PARTIAL: the SSA-extraction half (topology of a renamed/reformatted copy equals the original's) is a fact about go/ssa + ExtractTopology and is validated by differential runs on generated Go sources, not proved. Trusted: Lean kernel, SHA-256 model used only for equality, harness.",
@@ -101,9 +103,10 @@ PROPS["C07"] = {
     "trusted_base": ["pebble.Batch.Commit(Sync) is atomic and durable", "vfs.NewStrictMem drop-unsynced semantics / SIGKILL process-death semantics"],
 }
 PROPS["C18"] = {
+    "needs_sfw": True,
     "lean_modules": ["SfwModel.Props.C18", "SfwModel.Props.C18Limits"],
     "technique": 'Lean 4 theorems on migration/export, truncation and the atomic-replace protocol + every-byte truncation and strace correspondence',
-    "suites": [{"name": "migrate", "timeout": 3000}],
+    "suites": [{"name": "migrate", "timeout": 3000}, {"name": "cli", "quick": 1, "thorough": 6, "timeout": 3000}],
     "required_theorems": ["C18_batch_size_matches_source", "C18_migrate_eq", "C18_migrate_inv", "C18_export_migrate", "C18_get_after_add", "C18_get_after_batch",
                           "C18_json_get_after_add", "C18_json_get_after_batch", "C18_full_file_ok", "C18_truncation_reported",
                           "C18_atomic_replace"],
@@ -122,9 +125,10 @@ PROPS["C11"] = {
     "trusted_base": ["pebble.Snapshot isolation", "Go race detector (sampled schedules)"],
 }
 PROPS["C09"] = {
+    "needs_sfw": True,
     "technique": "Lean 4 theorems on the matcher/report bookkeeping and the zipper's map bookkeeping + regenerated go/ast facts + oracle on the real zipper maps",
     "lean_modules": ["SfwModel.Props.C09", "SfwModel.Props.C09Zipper", "SfwModel.Props.C09Facts", "SfwModel.Props.C09Equiv"],
-    "suites": [{"name": "diffreport", "quick": 10, "thorough": 150, "timeout": 3000}, {"name": "zipeq", "quick": 4, "thorough": 40, "timeout": 3000}],
+    "suites": [{"name": "diffreport", "quick": 10, "thorough": 150, "timeout": 3000}, {"name": "zipeq", "quick": 4, "thorough": 40, "timeout": 3000}, {"name": "cli", "quick": 1, "thorough": 6, "timeout": 3000}],
     "required_theorems": ["C09_old_partition", "C09_new_partition", "C09_same_name_paired", "C09_byName_iff",
                           "C09_summary_counts", "C09_lockstep_reachable", "C09_one_to_one", "C09_accounting",
                           "C09_unguarded_breaks", "C09_single_writer", "C09_matchUsers_guarded",
@@ -215,8 +219,9 @@ PROPS["C04"] = {
     "trusted_base": ["the Go compiler and runtime (native execution)", "diff.Zipper's areEquivalent (exercised, not modelled)"],
 }
 PROPS["C16"] = {
+    "needs_sfw": True,
     "technique": 'Lean 4 proof that the walker collects exactly the declared files (any tree) and of slot/strict logic + on-disk tree differential and go/parser coverage oracle',
-    "suites": [{"name": "walk", "quick": 150, "thorough": 3000, "timeout": 3000}],
+    "suites": [{"name": "walk", "quick": 150, "thorough": 3000, "timeout": 3000}, {"name": "cli", "quick": 1, "thorough": 6, "timeout": 3000}],
     "lean_modules": ["SfwModel.Props.C16", "SfwModel.Props.C16Limits"],
     "required_theorems": ["C16_size_guard_matches_source", "C16_collect_iff", "C16_collected_are_files", "C16_collect_sublist", "C16_one_slot_per_file",
                           "C16_error_reported", "C16_strict_fails_iff", "C16_no_silent_drop_partial",
